@@ -72,4 +72,8 @@ example :
       [.poll, .finish 0, .finish 1, .finish 2, .poll, .poll, .poll] [.poll, .finish 0, .poll, .finish 0, .poll] false := by
   decide +kernel
 
+/-- The library writer flushes its temp file before reading it back (read from api/compress.rs on
+every run; F16 repair), as the command line writer does (`Gen.cliTempFlushedBeforeReturn`). -/
+theorem lib_temp_file_flushed_fact : Gen.libTempFlushedBeforeRewind = true := by decide
+
 end Bita.Props.C12
